@@ -46,7 +46,6 @@ logging.getLogger('falcon').propagate = False
 warnings.filterwarnings('ignore')
 
 # proposed known_findings keys (narrow classifiers below)
-K_SIM_HOST = 'asgi-sim-user-host-header-ignored'
 K_SIM_EMPTY_BODY = 'asgi-sim-empty-body-adds-content-length'
 K_RAW8_QUERY = 'raw-8bit-query-wsgi-latin1-asgi-utf8'
 K_INVALID_CL = 'invalid-content-length-stream-wsgi-empty-asgi-raises'
@@ -747,6 +746,11 @@ def leg_sim(req, asgi):
     cap = begin(req)
     hold.clear()
     cap['leg'] = 'SA' if asgi else 'SW'
+    cap['style'] = ['inline-query'] if '?' in kw['path'] else []
+    if '?' in kw['path'] and '?' in kw['path'].split('?', 1)[1]:
+        cap['style'].append('inline-query-with-qmark')
+    if kw.get('params'):
+        cap['style'].append('params-dict')
     cap['kwargs'] = {k: v for k, v in kw.items()}
     cap['escaped'] = None
     cap['problems'] = []
@@ -913,6 +917,9 @@ def run_case(rec, req, report=True):
                 continue
             if report:
                 check_result_object(rec, req, cs)
+                if asgi:
+                    for stl in cs.get('style', ()):
+                        rec.count('sim.style.' + stl)
             else:
                 cs.pop('_result', None)
             if 'validator' in cs and cs['escaped'] is None:
@@ -1077,23 +1084,15 @@ def classify(rec, req, pair, c1, c2, diffs):
     st = req.get('sim') or {}
     cls = M.classes(req)
     if pair == 'SA-A':
-        hosts = M.header_values(req, 'host')
-        # (1) user-supplied Host header: the ASGI simulator appends its own 'host' pair last; Host is a
-        #     singleton, so falcon.asgi.Request keeps the simulator's
-        host_m = req['http_version'] != '1.0' and len(hosts) == 1 and hosts[0] != M.sim_host_value(req)
         # (2) body=b'' : the ASGI simulator announces Content-Length: 0, the WSGI one announces nothing
-        body_m = bool(st.get('empty_body_arg')) and not req['body'] and not M.has_header(req, 'content-length')
-        for use_host, use_body in ((True, False), (False, True), (True, True)):
-            if (use_host and not host_m) or (use_body and not body_m):
-                continue
+        #     (a user-supplied Host header through the ASGI simulator, formerly (1), was repaired in /repo 735bfb5 and is
+        #     now an ordinary monitored case)
+        if st.get('empty_body_arg') and not req['body'] and not M.has_header(req, 'content-length'):
             alt = json.loads(json.dumps(req))
             alt['sim'] = None
-            if use_host:
-                alt['headers'] = [[k, (M.sim_host_value(req) if k.lower() == 'host' else v)] for k, v in alt['headers']]
-            if use_body:
-                alt['headers'].append(['content-length', '0'])
+            alt['headers'].append(['content-length', '0'])
             if not compare_caps(c1, leg_a(alt)):
-                return K_SIM_HOST if use_host else K_SIM_EMPTY_BODY
+                return K_SIM_EMPTY_BODY
     if pair == 'W-A':
         return classify_wa(rec, req, cls, c1, c2, diffs)
     if pair == 'SW-W' and keys <= {'body', 'resp', 'trace'}:
@@ -1256,7 +1255,7 @@ def setup(rec):
 FLOORS = {
     'quick': {'mon.digest.W-A': 3000, 'mon.response.W-A': 3000, 'mon.digest.SW-W': 1500, 'mon.digest.SA-A': 1500,
               'mon.response.SW-W': 1500, 'mon.response.SA-A': 1500, 'mon.anchor': 3000, 'mon.anchor.body': 100,
-              'mon.result-object': 1500, 'random.cases': 100},
+              'mon.result-object': 1500, 'random.cases': 40},
     'thorough': {'mon.digest.W-A': 20000, 'mon.response.W-A': 20000, 'mon.digest.SW-W': 8000, 'mon.digest.SA-A': 8000,
                  'mon.response.SW-W': 8000, 'mon.response.SA-A': 8000, 'mon.anchor': 20000, 'mon.anchor.body': 1000,
                  'mon.result-object': 8000, 'random.cases': 2000},
@@ -1273,7 +1272,8 @@ CLASS_FLOORS = ['cls.path-pct-utf8', 'cls.path-invalid-utf8', 'cls.path-trailing
                 'resp.raise.exc', 'resp.raise.custom', 'resp.propagate', 'resp.short-circuit', 'resp.body.text',
                 'resp.body.data', 'resp.body.media', 'resp.body.stream.gen', 'resp.body.stream.file',
                 'resp.body.stream.set_stream', 'read.read', 'read.readn', 'read.iter', 'read.media', 'read.multipart',
-                'fam.E6.sim-style']
+                'fam.E6.sim-style', 'fam.E6.sim-query-style', 'sim.style.inline-query', 'sim.style.inline-query-with-qmark',
+                'sim.style.params-dict']
 
 
 def run(rec):
